@@ -965,11 +965,15 @@ def _key_checks(ctx, fi: FuncInfo, role: str, flavoured: bool):
     # reader
     hit = None
     for lp in loops:
+        tnames = {x.id for x in ast.walk(lp.target) if isinstance(x, ast.Name)}
         for n in walk(lp):
             if isinstance(n, ast.Compare) and len(n.ops) == 1 and isinstance(n.ops[0], (ast.In, ast.NotIn)) \
                     and ap(n.comparators[0]) in tables:
                 hit = (lp, ap(n.left), ap(n.comparators[0]))
-    ctx.require(hit is not None, f"C20.R3: {fi.qual}: no `key in <field table>` test found (re-read)")
+            elif hit is None and isinstance(n, ast.Subscript) and isinstance(n.ctx, ast.Load) and ap(n.value) in tables \
+                    and ap(n.slice) in tnames:
+                hit = (lp, ap(n.slice), ap(n.value))     # EAFP form: try: table[key] except KeyError
+    ctx.require(hit is not None, f"C20.R3: {fi.qual}: no lookup of the input key in the field table found (re-read)")
     lp, kname, tname = hit
     field_vars = {st.path for st in stores(lp, into_defs=False)
                   if st.kind == "assign" and isinstance(st.value, ast.Subscript) and ap(st.value.value) == tname
@@ -1348,6 +1352,19 @@ def _nz(d):
     return {k: v for k, v in d.items() if v}
 
 
+def _range_step(loop, sym: str):
+    """If `sym` is bound by this for-loop to the values of a range(...) - directly or as the value part of
+    enumerate(range(...)) - the range's step (1, or the step expression); 1 for an enumerate index; else None."""
+    tgt, it = loop.target, loop.iter
+    if isinstance(it, ast.Call) and ap(it.func) == "enumerate" and it.args and isinstance(tgt, ast.Tuple) and len(tgt.elts) == 2:
+        if ap(tgt.elts[0]) == sym:
+            return 1
+        tgt, it = tgt.elts[1], it.args[0]
+    if ap(tgt) != sym or not (isinstance(it, ast.Call) and ap(it.func) == "range" and not it.keywords):
+        return None
+    return it.args[2] if len(it.args) == 3 else 1 if it.args else None
+
+
 def _sender_chunking(ctx, send: FuncInfo, send_fns, pf: FuncInfo, pc: ast.Call):
     """One chunk size (take == advance), and the chunking ranges over the *prefixed* buffer: nothing that
     controls which chunks are cut may be derived from the payload before the length prefix was prepended."""
@@ -1397,14 +1414,16 @@ def _sender_chunking(ctx, send: FuncInfo, send_fns, pf: FuncInfo, pc: ast.Call):
                 ctx.require(len(syms) == 1, f"C20.R4: chunk offset `{norm(lo)}` does not depend on one loop variable (re-read)")
                 sym, coeff = syms[0], l_lo[syms[0]]
                 augs = [st for st in stores(fn, into_defs=False) if st.path == sym and st.kind == "augassign"]
-                loops = [n for n in walk(fn) if isinstance(n, (ast.For, ast.AsyncFor)) and ap(n.target) == sym]
+                steps = [x for x in (_range_step(n, sym) for n in walk(fn) if isinstance(n, (ast.For, ast.AsyncFor)))
+                         if x is not None]
                 if augs and all(isinstance(st.node.op, ast.Add) for st in augs):
                     for st in augs:
                         step = _lin(fn, ev, st.value)
                         sizes.append(("advance", None if step is None else _nz({k: v * coeff for k, v in step.items()})))
-                elif len(loops) == 1 and isinstance(loops[0].iter, ast.Call) and ap(loops[0].iter.func) == "range" \
-                        and len(loops[0].iter.args) == 1:
-                    sizes.append(("advance", {1: coeff}))
+                elif len(steps) == 1:
+                    step = {1: 1} if steps[0] == 1 else _lin(fn, ev, steps[0])
+                    control.append(steps[0]) if steps[0] != 1 else None
+                    sizes.append(("advance", None if step is None else _nz({k: v * coeff for k, v in step.items()})))
                 else:
                     raise AnalysisError(f"C20.R4: cannot tell how the chunk offset `{sym}` advances (re-read)")
         else:
@@ -1692,8 +1711,16 @@ def r7(ctx):
     for st in stores(des.node, into_defs=False):
         if st.kind == "assign" and st.value is not None and reads(st.value):
             read_names.add(st.path)
-    loops = [n for n in walk(des.node) if isinstance(n, (ast.For, ast.While)) and reads(n)
-             and not any(isinstance(a, (ast.For, ast.While)) and reads(a) for a in ancestors(n) if a is not des.node
+    LOOPY = (ast.For, ast.While, ast.ListComp, ast.SetComp, ast.GeneratorExp, ast.DictComp)
+
+    def iter_of(n):
+        it = n.iter if isinstance(n, ast.For) else n.generators[0].iter if not isinstance(n, ast.While) else None
+        return _expand(des.node, it) if it is not None else None
+
+    def loop_reads(n) -> bool:
+        return reads(n) or (iter_of(n) is not None and reads(iter_of(n)))
+    loops = [n for n in walk(des.node) if isinstance(n, LOOPY) and loop_reads(n)
+             and not any(isinstance(a, LOOPY) and loop_reads(a) for a in ancestors(n) if a is not des.node
                          and not isinstance(a, (ast.FunctionDef, ast.AsyncFunctionDef)))]
     ctx.require(len(loops) == 1, f"C20.R7: expected one influence-reading loop in deserialize, found {len(loops)} (re-read)")
     lp = loops[0]
@@ -1718,12 +1745,20 @@ def r7(ctx):
         # loop continues while count <op> c
         return {"Lt": c, "NotEq": c, "LtE": c + 1}.get(op)
     bounds = []
-    if isinstance(lp, ast.For):
-        it = lp.iter
-        if isinstance(it, ast.Call) and ap(it.func) == "range" and len(it.args) == 1:
+    if not isinstance(lp, ast.While):
+        it = iter_of(lp)
+        callee = (ap(it.func) or "").split(".")[-1] if isinstance(it, ast.Call) else None
+        if callee == "range" and len(it.args) == 1:
             b = _cval(repo, ci, it.args[0])
             ctx.require(b is not None, f"C20.R7: reader loop bound `{norm(it.args[0])}` is not a constant (re-read)")
             bounds.append(b)
+        elif callee == "islice" and len(it.args) == 2:
+            # at most B items are pulled from the underlying (sentinel-terminated) reader iterator
+            b = _cval(repo, ci, it.args[1])
+            ctx.require(b is not None, f"C20.R7: reader islice bound `{norm(it.args[1])}` is not a constant (re-read)")
+            bounds.append(b)
+        elif callee == "iter" and len(it.args) == 2:
+            pass        # iter(callable, sentinel): stops at the terminator only - no count bound from the iterator
         else:
             raise AnalysisError(f"C20.R7: reader iterates `{norm(it)}`: unsupported loop shape (re-read)")
     else:
